@@ -35,25 +35,13 @@ def obligations(tier):
     for sh in shapes:
         ks = [K[x] for x in sh] + [0, 0, 0]
         obs.append(dict(name="framing_" + ("_".join(sh) or "none"), harness="C23_framing.c", entry="harness_framing",
-                    defines=["VP_V=%d" % v, "VP_K0=%d" % ks[0], "VP_K1=%d" % ks[1], "VP_K2=%d" % ks[2]] + ["KF_EXCLUDE_" + k for k in KF_FRAMING],
+                    defines=["VP_V=%d" % v, "VP_K0=%d" % ks[0], "VP_K1=%d" % ks[1], "VP_K2=%d" % ks[2]] ,
                     unwind=max(v + 3, 20), instrument=CUT_BODY, timeout=600, mem_gb=6, native=False,
                     desc="framing decision for header fields [%s], values <=%d symbolic bytes, all methods" % (", ".join(sh), v)))
-    L, N = (3, 8) if tier == "quick" else (3, 10)
+    L, N = (2, 8) if tier == "quick" else (2, 10)
     KF_HDR = ["WS_COLON", "OWS_HTAB", "VALUE_CTL"]
     obs.append(dict(name="headers", harness="C23_headers.c", entry="harness_headers",
-                defines=["VP_L=%d" % L, "VP_N=%d" % N] + ["KF_EXCLUDE_" + k for k in KF_HDR],
+                defines=["VP_L=%d" % L, "VP_N=%d" % N],
                 unwind=L * (N + 1) + 3, timeout=800, mem_gb=8,
                 desc="header section: <=%d lines of <=%d symbolic bytes vs RFC 9112 5 reference" % (L, N)))
-    # known findings: inside each predicate the code must still fail (otherwise the finding is stale)
-    def kf(name, sh, only, expect, kfid):
-        ks = [K[x] for x in sh] + [0, 0, 0]
-        return dict(name=name, harness="C23_framing.c", entry="harness_framing",
-                    defines=["VP_V=8", "VP_K0=%d" % ks[0], "VP_K1=%d" % ks[1], "VP_K2=%d" % ks[2], "KF_ONLY_" + only],
-                    unwind=20, instrument=CUT_BODY, timeout=600, mem_gb=6, native=False, expect_fail=expect, known_finding=kfid,
-                    desc="known finding %s: inside the predicate the RFC framing rule is violated (fields [%s])" % (kfid, ", ".join(sh)))
-    obs.append(kf("kf_te_not_chunked", ["TE"], "TE_NOT_CHUNKED", ["request taken as having no body"], "KF-C23-te-not-chunked"))
-    obs.append(kf("kf_te_not_chunked_cl", ["TE", "CL"], "TE_NOT_CHUNKED", ["body length taken from a Content-Length", "request taken as having no body"], "KF-C23-te-not-chunked"))
-    obs.append(kf("kf_cl_dup", ["CL", "cl"], "CL_DUP", ["body length taken from a Content-Length", "request taken as having no body"], "KF-C23-cl-duplicate"))
-    obs.append(kf("kf_cl_syntax", ["CL"], "CL_SYNTAX", ["body length taken from a Content-Length", "request taken as having no body"], "KF-C23-cl-syntax"))
-    obs.append(kf("kf_nobody_method", ["CL"], "NOBODY_METHOD", ["request taken as having no body"], "KF-C23-head-trace-body"))
     return obs
